@@ -2359,7 +2359,7 @@ static void _ov_getlap(OggVorbis_File *vf,vorbis_info *vi,vorbis_dsp_state *vd,
     int samples=vorbis_synthesis_lapout(&vf->vd,&pcm);
     if(samples==0){
       for(i=0;i<vi->channels;i++)
-        memset(lappcm[i]+lapcount,0,sizeof(**pcm)*lapsize-lapcount);
+        memset(lappcm[i]+lapcount,0,sizeof(**pcm)*(lapsize-lapcount));
       lapcount=lapsize;
     }else{
       if(samples>lapsize-lapcount)samples=lapsize-lapcount;
